@@ -21,11 +21,14 @@ pub struct SimParams {
     pub max_latency_us: u64,
     /// per-mille chance that a `thread_rng` draw is an extreme value
     pub jitter_extreme_pm: u32,
+    /// timers fire up to this many microseconds late (0 = exactly on time)
+    #[serde(default)]
+    pub timer_late_us: u64,
 }
 
 impl Default for SimParams {
     fn default() -> Self {
-        SimParams { strat: Strat::Fifo, num_cpus: 1, short_write_pm: 0, eintr_pm: 0, latency_pm: 0, max_latency_us: 0, jitter_extreme_pm: 0 }
+        SimParams { strat: Strat::Fifo, num_cpus: 1, short_write_pm: 0, eintr_pm: 0, latency_pm: 0, max_latency_us: 0, jitter_extreme_pm: 0, timer_late_us: 0 }
     }
 }
 
